@@ -2,6 +2,7 @@ SPECIFICATION TSpec
 CONSTANTS
   MaxOps = 100000
   Batches = {1}
+  MaxSess = 4
   Dev = {}
   Mode = "design"
 INVARIANT NotStuck
